@@ -1,5 +1,8 @@
 #!/usr/bin/env python3
-"""Confirms each candidate seeded change in a scratch worktree of /repo: it applies, builds, the
+"""usage: confirm_seeded.py <src-root> [ids...]; env PREFIX (default "mut") and OFFSET (default 0) select
+/<src-root>/<PREFIX>-<id>-out/changeN and the names seeded/<id>-(N+OFFSET).
+
+Confirms each candidate seeded change in a scratch worktree of /repo: it applies, builds, the
 existing 142 tests pass, and its demonstration fails with the change and passes without it.
 Writes /verif/seeded/<id>/{patch.diff,demo/,meta.json}.  usage: confirm_seeded.py <src-root> [ids...]"""
 import json, os, re, shutil, subprocess, sys
@@ -55,10 +58,10 @@ def main():
         subprocess.run("git -C /repo worktree add -q --detach %s HEAD" % WT, shell=True, check=True)
     for pid in ids:
         for n in (1, 2):
-            d = "%s/mut-%s-out/change%d" % (SRC, pid, n)
+            d = "%s/%s-%s-out/change%d" % (SRC, os.environ.get("PREFIX", "mut"), pid, n)
             if not os.path.exists(d + "/patch.diff"):
                 continue
-            name = "%s-%d" % (pid, n)
+            name = "%s-%d" % (pid, n + int(os.environ.get("OFFSET", "0")))
             clean()
             sh("git checkout -q --detach $(git -C /repo rev-parse HEAD)")
             rc, out = sh("git apply %s/patch.diff 2>&1 || patch -p1 -F3 --no-backup-if-mismatch -s < %s/patch.diff" % (d, d))
